@@ -158,6 +158,7 @@ _cache = {}
 
 
 def get(P):
-    if id(P) not in _cache:
-        _cache[id(P)] = CallGraph(P)
-    return _cache[id(P)]
+    cg = P.__dict__.get("_callgraph")
+    if cg is None:
+        cg = P.__dict__["_callgraph"] = CallGraph(P)
+    return cg
